@@ -164,11 +164,23 @@ def floatOfLit (s : String) : Float :=
   let v := Float.ofScientific m (e < 0) e.natAbs
   if neg then -v else v
 
-/-- the exact value of a decimal literal (`Q` stream: every number is a short dyadic decimal, so this is `float(s)`). -/
-def ratOfLit (s : String) : Rat :=
-  let (neg, m, e) := litParts s
-  let v : Rat := if e ≥ 0 then ((m * 10 ^ e.toNat : Nat) : Rat) else mkRat m (10 ^ e.natAbs)
+/-- the rational a finite double IS (sign, exponent and mantissa read off its bits). -/
+def ratOfFloat (x : Float) : Rat :=
+  let b : Nat := x.toBits.toNat
+  let neg : Bool := b / 2 ^ 63 == 1
+  let e : Nat := (b / 2 ^ 52) % 2048
+  let m : Nat := b % 2 ^ 52
+  let num : Nat := if e == 0 then m else m + 2 ^ 52
+  let v : Rat :=
+    if e == 2047 then 0
+    else if e == 0 then mkRat (num : Int) (2 ^ 1074)
+    else if e ≥ 1075 then ((num * 2 ^ (e - 1075) : Nat) : Rat)
+    else mkRat (num : Int) (2 ^ (1075 - e))
   if neg then -v else v
+
+/-- `float(s)` on the `Q` stream: the double `floatOfLit` computes, as an exact rational (`repr` is the SHORTEST decimal
+    that reads back as the double, not its exact expansion). -/
+def ratOfLit (s : String) : Rat := ratOfFloat (floatOfLit s)
 
 def netlistOp (sqrt : α → α) (tiny : α) (fv : String → α) (op : String) (args : List String) : Option String :=
   match op with
